@@ -68,7 +68,7 @@ class Case17:
 
     def fail(self, check, what, snippet, tags):
         self.res.fail(tags=tuple(self.base_tags | set(tags) | {check}), what=what,
-                      script=self.rec.script(snippet), case=(self.ckey, tuple(self.hist)))
+                      script=self.rec.script(snippet), case=(self.ckey, tuple(self.hist)), cap=1)
 
     def call(self, q):
         """One top-level call; if it fails, the traceback contract is checked."""
@@ -92,7 +92,11 @@ class Case17:
         e = exp[1]
         with res.case(key, nontrivial=True):
             r = rec.call(sp.top_expr(q))
-            tags = {"exc-" + e.kind, "raiser-" + sp.nodes[e.origin].kind, "err-" + self.errmode}
+            rk = sp.nodes[e.origin].kind
+            tags = {"exc-" + e.kind, "raiser-" + {"U": "uncached", "V": "uncached", "L": "lambda", "I": "itemspace-cells",
+                                                  "Z": "itemspace-node"}.get(rk, "cells")}
+            if self.errmode != "formula-error":
+                tags.add("err-" + self.errmode)
             hist_types = [t for t in self.hist_types]
             if "H" in hist_types or incall or pending_before:
                 tags.add("handled-unwind-pending")
@@ -209,7 +213,11 @@ class Case17:
         sp = self.spec
         err = mx.get_error()
         cls = EXC_CLASS[e.kind]
-        if type(err).__name__ != cls:
+        if cls is None:
+            if not isinstance(err, Exception):
+                self.fail("chk-get-error", "get_error() is %r after a failing space formula" % (err,),
+                          "sys.exit(1 if not isinstance(mx.get_error(), Exception) else 0)", tags)
+        elif type(err).__name__ != cls:
             self.fail("chk-get-error", "get_error() is %r, the escaping exception was a %s" % (err, cls),
                       "sys.exit(1 if type(mx.get_error()).__name__ != %r else 0)" % cls, tags)
         elif e.kind == "boom":
